@@ -60,7 +60,7 @@ func cstatsProps(op *wire.Rec) info.PropMap {
 		prop.CritChance: op.Flt("cc"), prop.CritDMG: op.Flt("cd"), prop.HealBoost: op.Flt("healboost"), prop.HealTaken: op.Flt("healtaken"),
 		prop.EnergyRegen: op.Flt("regen"), prop.AllStanceDMGPercent: op.Flt("stancepct"),
 		// percentage and flat parts of ATK and DEF (absent: 0): the stat is base x (1 + percent) + flat, not below 0
-		prop.ATKPercent: op.Flt("atkpct"), prop.ATKFlat: op.Flt("atkflat"), prop.DEFPercent: op.Flt("defpct"), prop.DEFFlat: op.Flt("defflat"),
+		prop.ATKPercent: op.Flt("atkpct"), prop.ATKFlat: op.Flt("atkflat"), prop.DEFPercent: op.Flt("defpct"), prop.DEFFlat: op.Flt("defflat") * 0.25, prop.DEFConvert: op.Flt("defflat") * 0.75, // the flat part arrives as a flat and a converted addend
 	}
 	for i, v := range op.Flts("dmgpct") {
 		pm[prop.DamagePercent(dmgTypes[i])] = v
